@@ -53,8 +53,17 @@ def width_points(bits, signed):
     return sorted(p for p in pts if lo <= p <= hi)
 
 
+def _magic():
+    from . import magic
+    return magic.pool()
+
+
 def rint(rnd, lo=-2**63, hi=2**63 - 1):
     k = rnd.random()
+    if k < 0.05:
+        v = _magic().rint(rnd, lo, hi)
+        if v is not None:
+            return v
     if k < 0.45:
         v = rnd.choice(_LADDER)
     elif k < 0.75:
@@ -123,6 +132,10 @@ def rshortstr(rnd):
         n = rnd.randint(0, 255)
     if rnd.random() < 0.04:
         return rnd.choice(LOOKALIKES)
+    if rnd.random() < 0.06:
+        m = _magic().rstr(rnd, 255)
+        if m is not None:
+            return m
     s = rstr_bytes(rnd, n)
     if rnd.random() < 0.03 and n >= 4:
         s = 'AMQP' + rstr_bytes(rnd, n - 4, 'ascii')
@@ -143,6 +156,10 @@ def rlongstr(rnd, big=False):
         return '\ufeff' + rstr_bytes(rnd, n - 3)
     if rnd.random() < 0.04:
         return rnd.choice(LOOKALIKES)
+    if rnd.random() < 0.06:
+        m = _magic().rstr(rnd, 70000)
+        if m is not None:
+            return m
     return rstr_bytes(rnd, n)
 
 
@@ -176,6 +193,10 @@ def rkey(rnd):
         return rnd.choice(TEMPLATE_KEYS)
     if k < 0.17:
         return rnd.choice(LOOKALIKES)
+    if k < 0.23:
+        m = _magic().rstr(rnd, 255, 128)
+        if m is not None:
+            return m
     k = rnd.random()
     if k < 0.08:
         return ''
@@ -210,6 +231,8 @@ def rfloat(rnd):
     k = rnd.random()
     if k < 0.06:
         return rnd.choice(BEYOND_SINGLE)
+    if k < 0.1:
+        return rnd.choice(_magic().floats) * rnd.choice([1, 1, -1, 0.5])
     if k < 0.25:
         return rnd.choice([0.0, -0.0, 1.0, -1.0, 0.1, 1e-45, -1e-45,
                            1.401298464324817e-45, 1.1754943508222875e-38,
@@ -239,6 +262,10 @@ def rdecimal(rnd):
     unscaled = rnd.choice(UNSCALED) if rnd.random() < 0.5 \
         else rnd.randint(-2**31, 2**31 - 1)
     scale = rnd.choice(SCALES) if rnd.random() < 0.6 else rnd.randint(0, 255)
+    if rnd.random() < 0.08:
+        unscaled = _magic().rint(rnd, -2**31, 2**31 - 1) or unscaled
+    if rnd.random() < 0.08:
+        scale = _magic().rint(rnd, 0, 255) or scale
     if k < 0.2 and scale == 0:
         # positive exponent form: coefficient * 10**e still within 32 bits
         e = rnd.randint(1, 4)
@@ -254,6 +281,10 @@ OFFSETS = [0, 60, -60, 330, 345, -570, 840, -720, 765, 1, -1439, 1439]
 
 
 def rinstant(rnd):
+    if rnd.random() < 0.06:
+        v = _magic().rint(rnd, 0, 2**32 - 1)
+        if v is not None:
+            return v
     if rnd.random() < 0.4:
         return int(rnd.choice(TS_POINTS))
     return rnd.randint(0, 2**32 - 1)
@@ -322,6 +353,8 @@ def leaf(rnd, kind=None):
         return rlongstr(rnd)
     if kind == 'bytearray':
         n = rnd.choice([0, 1, 2, 255, 256, rnd.randint(0, 40)])
+        if rnd.random() < 0.06:
+            return bytearray(_magic().rbytes(rnd))
         b = bytearray(rnd.randbytes(n))
         if n and rnd.random() < 0.3:
             b[rnd.randrange(n)] = 0xCE
